@@ -1,20 +1,13 @@
 package main
 
 import (
-	"fmt"
+	"os"
 	"verif/checker/eng"
-	"golang.org/x/tools/go/ssa"
+	"verif/checker/rules"
 )
 
 func main() {
 	p, err := eng.Load(eng.LoadConfig{})
 	if err != nil { panic(err) }
-	fn := p.Func("core.(*XRefParser).parseXRefStream")
-	eng.Instrs(fn, false, func(in ssa.Instruction) {
-		st, ok := in.(*ssa.Store)
-		if !ok { return }
-		ia, ok := st.Addr.(*ssa.IndexAddr)
-		if !ok { return }
-		fmt.Printf("store to %T %v val %T\n", ia.X, ia.X, st.Val)
-	})
+	rules.DebugLoops(p, os.Args[1:]...)
 }
